@@ -138,6 +138,8 @@ func (bw *BatchedWriter) Enqueue(object BatchWriteObject) {
 		return
 	}
 
+	verifYield("bw.enqueue.afterRunningCheck")
+
 	// abort if the very same object has been queued already
 	if object.BatchWriteScheduled() {
 		return
@@ -145,6 +147,7 @@ func (bw *BatchedWriter) Enqueue(object BatchWriteObject) {
 
 	// queue object
 	bw.scheduledCount.Add(1)
+	verifYield("bw.enqueue.beforeSend")
 	bw.batchQueue <- object
 }
 
